@@ -61,6 +61,14 @@ def readerTakesRaw (sourceSize storedLen : Nat) : Bool :=
   else if Gen.readerRawIf = ">=" then decide (sourceSize ≥ storedLen)
   else false
 
+/-- `CompressionAlgorithm::decompress(compressed, size_hint)`: whatever the codec `raw` produces for
+the stored bytes is written into a buffer that refuses more than the size declared for the chunk
+(whether that limit is in the source is read on every run: `Gen.decompressOutputLimited`, F11). -/
+def limitedDecomp (raw : Nat → Bytes → Option Bytes) (algo : Nat) (stored : Bytes) (declared : Nat) :
+    Option Bytes :=
+  (raw algo stored).bind fun out =>
+    if Gen.decompressOutputLimited = true ∧ declared < out.length then none else some out
+
 /-- `CompressedChunk::decompress` + `ArchiveChunk::verify` for one fetched item. -/
 def decodeChunk (H : Bytes → Bytes) (decomp : Nat → Bytes → Nat → Option Bytes)
     (compr : Compr) (d : Descr) (stored : Bytes) : Option Bytes :=
